@@ -5,12 +5,12 @@ after every step the projection of every live object (fields read back, whether
 '_hash_value' is in the instance __dict__, the cached hash).  Raw 64-bit hashes
 and trees are interned per trace into small ids (first occurrence order).
 
-Every trace runs in a forked child of the worker process.  The worker itself only
-imports pymbolic and creates the user classes - it never hashes or compares an
-expression - so every trace starts from the pristine interpreter state: whatever
-pymbolic remembers per class (or per module) about earlier use is in its initial
-state, and the order in which a history first uses the classes is the order pymbolic
-sees.  Objects that "arrive from another interpreter" are built (and, if the history
+Every trace that involves an undecorated class (one whose instances run the generated
+__eq__/__hash__ of a decorated ancestor) runs in a forked child of the worker process.
+The worker itself creates the user classes but never hashes or compares an instance of
+such a class, so every such trace starts from the pristine class state: whatever
+pymbolic remembers per class about earlier use is in its initial state, and the order
+in which a history first uses the classes is the order pymbolic sees.  Objects that "arrive from another interpreter" are built (and, if the history
 says so, hashed) and pickled by a helper interpreter running with a different
 PYTHONHASHSEED, and unpickled here.
 Nothing in here judges anything."""
@@ -302,7 +302,13 @@ def _step(tr, ev):
                 blob = tr.blobs[_blob_key(ev["spec"], ev["md"])]
                 if "err" in blob:
                     return _res("err", exc=blob["err"])
-                tr.objs.append(pickle.loads(bytes.fromhex(blob["hex"])))
+                if "nopickle" in blob:
+                    return _res("nopickle", exc=blob["nopickle"])
+                try:
+                    c = pickle.loads(bytes.fromhex(blob["hex"]))
+                except Exception as exc:  # noqa: BLE001
+                    return _res("nopickle", exc=type(exc).__name__)
+                tr.objs.append(c)
                 return _res("new")
             tr.objs.append(build(ev["spec"]))
             return _res("new")
@@ -321,7 +327,10 @@ def _step(tr, ev):
         if op == "Copy":
             if ev["md"] == "pickle":
                 import pickle
-                c = pickle.loads(pickle.dumps(a))
+                try:
+                    c = pickle.loads(pickle.dumps(a))
+                except Exception as exc:  # noqa: BLE001
+                    return _res("nopickle", exc=type(exc).__name__)
             else:
                 c = copy.copy(a) if ev["md"] == "copy" else copy.deepcopy(a)
             if c is a:
@@ -403,15 +412,19 @@ def foreign_main():
     for line in sys.stdin:
         req = json.loads(line)
         try:
-            o = build(req["spec"])
-            if req["md"] == "pkh":
-                hash(o)
-            elif req["md"] == "pkc":
-                for c in _nested_nodes(o):
-                    hash(c)
-            ans = {"hex": pickle.dumps(o).hex()}
+            o = build(req["spec"])      # the constructor may refuse, as it would here
         except Exception as exc:  # noqa: BLE001
             ans = {"err": type(exc).__name__}
+        else:
+            try:
+                if req["md"] == "pkh":
+                    hash(o)
+                elif req["md"] == "pkc":
+                    for c in _nested_nodes(o):
+                        hash(c)
+                ans = {"hex": pickle.dumps(o).hex()}
+            except Exception as exc:  # noqa: BLE001
+                ans = {"nopickle": type(exc).__name__}
         sys.stdout.write(json.dumps(ans) + "\n")
         sys.stdout.flush()
 
@@ -456,13 +469,32 @@ def _drive_inproc(case, blobs):
     return {"id": case["id"], "sweep": case["sweep"], "trees": tr.trees, "evs": evs}
 
 
+# undecorated classes: their instances run the generated functions of a decorated
+# ancestor, which is where pymbolic could remember something per class
+UNDECORATED = {"UPlain", "UPlain2", "UVar", "MultiVectorVariable", "ULegChild", "ULegGrand",
+               "ULegGrandD", "ULegChildPlain", "UMVTag"}
+
+
+def _mentions(v, names):
+    if isinstance(v, dict):
+        return v.get("cls") in names or any(_mentions(x, names) for x in v.values())
+    if isinstance(v, list):
+        return any(_mentions(x, names) for x in v)
+    return False
+
+
 def drive_case(case, extra):
-    """case = {"id", "sweep", "hist": [events]} -> recorded trace (run in a forked child)."""
+    """case = {"id", "sweep", "hist": [events]} -> recorded trace.  A history that
+    touches an undecorated class anywhere runs in a forked child, so that the worker
+    never uses such a class itself and every such history starts from the pristine
+    class state (a fork per trace for *all* histories costs minutes on a busy machine)."""
     with warnings.catch_warnings():
         warnings.simplefilter("ignore")
         _classes()      # an import error of pymbolic is a machinery failure, not an observation
     blobs = dict(_foreign_blob(ev["spec"], ev["md"])
                  for ev in case["hist"] if ev["op"] == "New" and ev["md"])
+    if not any(ev["op"] == "New" and _mentions(ev["spec"], UNDECORATED) for ev in case["hist"]):
+        return _drive_inproc(case, blobs)
     rfd, wfd = os.pipe()
     pid = os.fork()
     if pid == 0:
